@@ -16,7 +16,7 @@ deriving DecidableEq, Repr
 
 /-- value expressions over: the ballot's weight, the surplus, the candidate's tally, its keep factor, the quota -/
 inductive WEx
-  | weight | surplus | vote | kf | quota | one
+  | weight | surplus | vote | kf | quota | one | zero
   | minus (a b : WEx)                      -- Python `a - b` on values
   | iteLt (a b x y : WEx)                  -- Python `x if a < b else y`
   | times (a b : WEx)                      -- Python `a * b` on values
@@ -44,6 +44,7 @@ def WEx.eval {α : Type} (A : Arith α) (env : WEnv α) : WEx → α
   | .kf => env.kf
   | .quota => env.quota
   | .one => A.one
+  | .zero => A.zero
   | .minus a b => A.sub (a.eval A env) (b.eval A env)
   | .iteLt a b x y => if A.lt (a.eval A env) (b.eval A env) then x.eval A env else y.eval A env
   | .times a b => A.mulV (a.eval A env) (b.eval A env)
@@ -67,6 +68,9 @@ def kwWarrenProg : WEx × WEx := (.iteLt .kf .weight .kf .weight, .minus .weight
 def kwMeekProg : WEx × WEx := (.mul .down .weight .kf, .mul .down .weight (.minus .one .kf))
 /-- meek_prf.py B.2.a: `keep_weight = V.mul(b.weight, c.kf, round='up')` -/
 def kwPrfProg : WEx := .mul .up .weight .kf
+
+/-- candidate.py `surplus`: `s = self.vote - self.E.quota; return self.E.V0 if s < self.E.V0 else s` (local inlined) -/
+def candSurplusProg : WEx := .iteLt (.minus .vote .quota) .zero .zero (.minus .vote .quota)
 
 /-! ## each is the model's formula -/
 
@@ -145,5 +149,9 @@ theorem prfRankStep_uses_program (mult : α) (acc : St α × α × α × Bool) (
          A.sub acc.2.2.1 (A.mulV (kwPrfProg.eval A { weight := acc.2.1, surplus := A.zero, vote := A.zero, kf := kf, quota := A.zero }) mult),
          A.le (A.sub acc.2.1 (kwPrfProg.eval A { weight := acc.2.1, surplus := A.zero, vote := A.zero, kf := kf, quota := A.zero })) A.zero)
       | none => acc := rfl
+
+/-- a candidate's surplus (scotland, mpls: which surplus is the largest, the total surplus) is the translated property -/
+theorem candSurplus_is_program (s : St α) (c : Cand α) :
+    candSurplus A s c = candSurplusProg.eval A { weight := A.zero, surplus := A.zero, vote := c.vote, kf := A.zero, quota := s.quota } := rfl
 
 end Droop.C06
